@@ -288,6 +288,9 @@ def bodies(style_cls, comment):
         ("header in the middle, blank first line", "\n\nfirst BODY1\n\n", hdr + "\n", "\n\n  third BODY3"),
         ("header at the end", "first BODY1\n\n", hdr + "\n", ""),
     ]
+    if style_cls.SINGLE_LINE and "\n" not in comment("SPDX-License-Identifier: ISC"):
+        one = comment("SPDX-License-Identifier: ISC")
+        out.append(("header text also occurs earlier as a trailing remark", "zz = 1  " + one + " BODY1\n\tyy BODY2 " + one + "\n\n", one + "\n", "\nxx BODY3\n"))
     for sb in style_cls.SHEBANGS or []:
         line = sb + ("/bin/sh BODY7" if sb == "#!" else " BODY7 ?>" if sb.startswith("<?") else " BODY7")
         out.append((f"first-line declaration {sb}", "", "", line + "\nzz BODY1\n"))
@@ -423,7 +426,14 @@ STEPS = [
     (["--copyright", "Frank", "--no-replace", "--exclude-year"], {}),
     (["--license", "MIT", "--skip-existing"], {"skip": True}),
     (["--copyright", "Grace", "--template", "full"], {}),
+    # requests that are textual prefixes of what earlier steps wrote
+    (["--license", "Apache-2.0 WITH LLVM-exception", "--contributor", "Caroline Smithson"], {}),
+    (["--copyright", "Bob", "--year", "2015"], {}),
+    (["--contributor", "Caro"], {}),
+    (["--license", "Apache-2.0"], {}),
 ]
+# histories that are always run, whatever the sampling of the permutations
+FIXED_HISTORIES = [[1, 11], [10, 13], [10, 12], [2, 12, 11], [10, 13, 12]]
 STARTS = {
     "empty": "", "code": "x = 1  BODY1\n",
     "foreign header": "# Copyright (C) 1999 Legacy Corp\n# SPDX-License-Identifier: Apache-2.0\n# SPDX-FileContributor: Zed\n\ny = 2 BODY1\n",
@@ -445,14 +455,14 @@ def accumulation(tier):
     n = 4 if tier == "thorough" else 3
     seqs = list(itertools.permutations(range(len(STEPS)), n))
     if tier != "thorough":
-        seqs = seqs[::7]
+        seqs = seqs[::23]
     else:
-        seqs = seqs[::5]
+        seqs = seqs[::19]        # 24 024 permutations of length 4 over 14 steps: every 19th, on 2 file types x 3 starts
     for fname, multi_ok in (("f.py", False), ("g.c", True)):
         for sname, start in STARTS.items():
             if fname == "g.c":
                 start = start.replace("# ", "// ").replace("#\n", "//\n")
-            for seq in seqs:
+            for seq in [tuple(h) for h in FIXED_HISTORIES] + list(seqs):
                 if not multi_ok and any(STEPS[i][1].get("multi") for i in seq):
                     continue
                 cases += 1
